@@ -413,9 +413,19 @@ impl Light {
                 .map(|s| s.to_string())
                 .or_else(|| p.downcast_ref::<String>().cloned())
                 .unwrap_or_default();
-            // the panic monitor recorded it too: take it so that it is reported once, here
+            // the panic monitor recorded it too: take it so that it is reported once, here;
+            // records of other threads (node services) are reported as such
             let recs = hooks::take_panics();
-            let loc = recs.last().map(|p| p.location.clone()).unwrap_or_default();
+            let me = std::thread::current().name().unwrap_or("<unnamed>").to_string();
+            let loc = recs.iter().rev().find(|p| p.thread == me).map(|p| p.location.clone()).unwrap_or_default();
+            for p in recs.iter().filter(|p| p.thread != me) {
+                let file = p.location.rsplit('/').next().unwrap_or("").split(':').next().unwrap_or("").to_string();
+                self.r.violation(
+                    &format!("node_thread_panicked@{}:{}:{}", p.thread, file, p.message.chars().take(60).collect::<String>()),
+                    format!("thread '{}' panicked at {}: {} (observed while a light-client request was processed)", p.thread, p.location, p.message),
+                    json!({}),
+                );
+            }
             let _ = before;
             return Outcome::Panic(format!("{msg} @ {loc}"));
         }
@@ -619,7 +629,9 @@ impl Light {
                 self.r.count_n("light.proof_leaves_verified", numbers.len() as u64);
             }
             other => {
-                let _ = hooks::take_panics();
+                if other.is_err() {
+                    let _ = hooks::take_panics();
+                }
                 let why = match other {
                     Ok(Ok(b)) => format!("verify = {b}"),
                     Ok(Err(e)) => format!("verify error {e}"),
